@@ -1,0 +1,28 @@
+//go:build verif
+
+package manifest
+
+import (
+	"bufio"
+	"bytes"
+)
+
+// Verification hooks (build tag `verif` only): expose the unexported manifest edit codec
+// to the correspondence harness of /verif (property C16).  No behaviour is added.
+
+// VerifWriteEdit returns the framed bytes writeEdit produces for edit.
+func VerifWriteEdit(edit Edit) ([]byte, error) {
+	var buf bytes.Buffer
+	if err := writeEdit(&buf, edit); err != nil {
+		return nil, err
+	}
+	return buf.Bytes(), nil
+}
+
+// VerifDecodeEdit runs decodeEdit on an edit payload (without the length prefix).
+func VerifDecodeEdit(payload []byte) (Edit, error) { return decodeEdit(payload) }
+
+// VerifReadEdit runs readEdit on a framed stream.
+func VerifReadEdit(framed []byte) (Edit, error) {
+	return readEdit(bufio.NewReader(bytes.NewReader(framed)))
+}
